@@ -148,6 +148,12 @@ Fixpoint shash (s : string) (h : N) : N :=
   | String c r => shash r (N.land (h * 131 + N_of_ascii c) hmask)
   end.
 Definition hs (s : string) : N := shash s 7%N.
+(* how the harness writes such a hash: five byte constructors, most significant first.  (A decimal
+   literal of 13 digits costs coqc 0.7 ms to interpret, and a run has 70 000 of them: the constructors are
+   read five times faster; the value is the same number.) *)
+Definition H5 (a b c d e : Coq.Init.Byte.byte) : N :=
+  (Coq.Strings.Byte.to_N a * 4294967296 + Coq.Strings.Byte.to_N b * 16777216 + Coq.Strings.Byte.to_N c * 65536
+   + Coq.Strings.Byte.to_N d * 256 + Coq.Strings.Byte.to_N e)%N.
 Definition sortn (l : list N) : list N := sort_by N.ltb l.
 
 Fixpoint remove1 (x : N) (l : list N) : list N :=
